@@ -75,6 +75,17 @@ type OnlyBoolean struct{ B bool }
 
 func (o OnlyBoolean) Boolean() bool { return o.B }
 
+// BoolStringer implements stick.Boolean and fmt.Stringer at once (an
+// "optional text"): which of the two wins when it is printed is stick's
+// business, that the printed text is escaped is not.
+type BoolStringer struct {
+	Text  string
+	Valid bool
+}
+
+func (o BoolStringer) Boolean() bool  { return o.Valid }
+func (o BoolStringer) String() string { return o.Text }
+
 // CustomSafe is a SafeValue implementation that is not the library's own.
 type CustomSafe struct {
 	V     interface{}
@@ -191,6 +202,8 @@ func Build(v sb.V) interface{} {
 		return OnlyNumber{v.N}
 	case "boolean":
 		return OnlyBoolean{v.B}
+	case "boolstringer":
+		return BoolStringer{v.S, v.B}
 	case "plain":
 		return Plain{int(v.N)}
 	case "decimal":
